@@ -4,6 +4,7 @@ import (
 	"fmt"
 	"go/constant"
 	"go/token"
+	"go/types"
 	"regexp/syntax"
 	"sort"
 	"strings"
@@ -43,7 +44,7 @@ func init() {
 	registry["C13"] = func() *Property {
 		return &Property{
 			ID:          "C13",
-			Explanation: "Width clause only, decided by inference of an inductive loop invariant (engine E9): ansi.Wrap and ansi.DumbWrap are one loop over the matches of ansi.expand; strings are abstracted to an upper bound of their number of visible characters (whole string, or last line for an accumulator that receives line feeds), the state of the loop is the phis of its header, and the strongest inductive invariant inside a template family of linear facts over the counters, the width and the string bounds (n >= 0, n <= w, sums <= w, `m = 0 or sum <= w`, W(s) <= n) is computed Houdini style over all acyclic header-to-header paths, with exact linear reasoning (simplex over the rationals). Decided: (R0) ansi.expand returns the matches of a pattern that consumes exactly one character outside escape sequences per match, so a match is one visible character; (R1) every line ansi.Wrap completes — every element appended to the slice it joins with line feeds — has at most `length` visible characters on every path, for every width >= 1; (R2) the same for ansi.DumbWrap's accumulator at every point where a character or line feed is added; (R3) with lower bounds next to the upper ones (a piece of a match counts towards a lower bound only where the path knows its character is no line feed), every line ansi.Pad completes, and the last line it returns, has at least `length` visible characters and exactly `length` where padding was added; (R4) DumbWrap, Pad and Indent keep every character: each is one loop over the matches of expand(text) in ascending order, and every acyclic path round the loop appends to the one accumulator, at its end, inserted material and the content of the current match exactly once — the whole match (escape sequences included) when the character is no line feed, a line feed when it is; nothing of the text is appended after the loop; (R5) every line feed ansi.Indent emits is directly followed by the prefix, a match that may be a line feed is never copied as it is, and the accumulator enters the loop as the prefix exactly on the includeFirst arm. NOT decided: content, order and break placement of Wrap (it buffers words and drops blanks at breaks by design), that words are broken only when longer than a line, Snip.",
+			Explanation: "Width clause only, decided by inference of an inductive loop invariant (engine E9): ansi.Wrap and ansi.DumbWrap are one loop over the matches of ansi.expand; strings are abstracted to an upper bound of their number of visible characters (whole string, or last line for an accumulator that receives line feeds), the state of the loop is the phis of its header, and the strongest inductive invariant inside a template family of linear facts over the counters, the width and the string bounds (n >= 0, n <= w, sums <= w, `m = 0 or sum <= w`, W(s) <= n) is computed Houdini style over all acyclic header-to-header paths, with exact linear reasoning (simplex over the rationals). Decided: (R0) ansi.expand returns the matches of a pattern that consumes exactly one character outside escape sequences per match, so a match is one visible character; (R1) every line ansi.Wrap completes — every element appended to the slice it joins with line feeds — has at most `length` visible characters on every path, for every width >= 1; (R2) the same for ansi.DumbWrap's accumulator at every point where a character or line feed is added; (R3) with lower bounds next to the upper ones (a piece of a match counts towards a lower bound only where the path knows its character is no line feed), every line ansi.Pad completes, and the last line it returns, has at least `length` visible characters and exactly `length` where padding was added; (R4) DumbWrap, Pad and Indent keep every character: each is one loop over the matches of expand(text) in ascending order, and every acyclic path round the loop appends to the one accumulator, at its end, inserted material and the content of the current match exactly once — the whole match (escape sequences included) when the character is no line feed, a line feed when it is; nothing of the text is appended after the loop; (R5) every line feed ansi.Indent emits is directly followed by the prefix, a match that may be a line feed is never copied as it is, and the accumulator enters the loop as the prefix exactly on the includeFirst arm. (R6) ansi.Wrap keeps every character that is not a blank, in order: the exit path that flushes every buffer gives the logical order of the buffers (completed lines, current line, pending blanks, word), every buffer's new value on a path is evaluated symbolically to a sequence of old buffer contents, the current character and constants, and on every path round the loop and out of it the buffers read in logical order must hold what they held before followed by the current character, up to buffers that are provably empty on that path (invariant of R1 and path facts, by LP), buffers that only ever receive blanks, the current character where it is known to be a blank, and blank constants; on a path that knows the character to be a line feed a line is completed; a buffer other than the current line is pushed as a line of its own only where its counter has provably reached the width. (R7) ansi.Snip returns at most `height` lines that are a gap-free prefix of the lines of its text, in order, plus at most the ellipsis: the index starts at min(len(lines), height)-1 with nothing kept, drops by exactly one on every path round the loop while the kept slice grows by one line or not at all, what is kept is collapse(expand(lines[i])) possibly without its tail, put in front of what was kept before, a trip keeps nothing only while nothing is kept yet, the result is the kept lines joined with line feeds plus possibly the ellipsis parameter, and every caller passes a constant ellipsis without a line feed. NOT decided: which blanks Wrap keeps; that Wrap breaks lines only where it must.",
 			Assumptions: []string{"width >= 1 (the property's own precondition)", "regexp semantics: FindAllStringSubmatch returns non-overlapping matches, element 0 the whole match", "a visible character is one match of ansi.expand (escape sequences inside a match are not visible)"},
 			Rules: []Rule{
 				{ID: "C13.R0", Title: "ansi.expand yields one visible character per match", Floor: 2, Run: c13R0},
@@ -52,6 +53,8 @@ func init() {
 				{ID: "C13.R3", Title: "ansi.Pad makes every line at least the width, exactly the width where it adds padding", Floor: 3, Run: func(c *Ctx) { c13Loop(c, "Pad", "pad") }},
 				{ID: "C13.R4", Title: "DumbWrap, Pad and Indent keep every character, with its escape sequences, in order, and every line break", Floor: 10, Run: c13Content},
 				{ID: "C13.R5", Title: "ansi.Indent puts the prefix after every line feed, and in front of the first line exactly when asked", Floor: 3, Run: c13IndentShape},
+				{ID: "C13.R6", Title: "ansi.Wrap keeps every character that is not a blank, in order; line feeds complete lines; words are cut only at the width", Floor: 12, Run: c13WrapContent},
+				{ID: "C13.R7", Title: "ansi.Snip returns at most `height` lines: a gap-free prefix of the lines of the text, in order, plus at most the ellipsis", Floor: 6, Run: c13Snip},
 			},
 		}
 	}
@@ -1778,4 +1781,782 @@ func c13IndentShape(c *Ctx) {
 		}
 	}
 	c.check(okFirst, fname+"/first-line", pos, fname, "the first line gets the prefix exactly when includeFirst is set", "Indent: "+whyFirst)
+}
+
+// ---------------------------------------------------------------- R6
+//
+// Content of ansi.Wrap. Wrap keeps the text it has read in buffers — the lines
+// completed so far, the current line, the blanks after it, the word being read
+// — and flushes them in that order at the end. The flush on the exit path that
+// uses every buffer gives the *logical order* of the buffers. A trip round the
+// loop preserves content if, with every buffer replaced by its new value, the
+// buffers in logical order read: what they read before, followed by the current
+// character — up to atoms that may be dropped or added freely: a buffer that
+// is empty on this path (its counter is provably 0 and bounds it), a buffer
+// that only ever holds blanks, the current character where the path knows it
+// to be a blank, constants of blanks. The same comparison on every exit path
+// shows that nothing is lost at the end. Equalities and counters come from the
+// inductive invariant of R1.
+
+type catom struct {
+	kind string // "old", "cur", "const", "unknown"
+	v    ssa.Value
+	s    string
+}
+
+func (a catom) String() string {
+	switch a.kind {
+	case "old":
+		return strName(a.v)
+	case "cur":
+		return "<char>"
+	case "const":
+		return fmt.Sprintf("%q", a.s)
+	}
+	return "?" + a.s
+}
+
+type wrapContent struct {
+	L     *wloop
+	slice *ssa.Phi // the lines completed so far
+}
+
+func (wc *wrapContent) seqString(lc *lcPath, v ssa.Value, d int) []catom {
+	L := wc.L
+	if d > 64 {
+		return []catom{{kind: "unknown", s: "too deep"}}
+	}
+	if k, idx, ok := pieceIndex(L, v); ok {
+		if k == 0 && idx != nil && L.isLoopIndex(idx) {
+			return []catom{{kind: "cur"}}
+		}
+		return []catom{{kind: "unknown", s: fmt.Sprintf("element %d of a match", k)}}
+	}
+	v = lc.at(v)
+	if k, idx, ok := pieceIndex(L, v); ok {
+		if k == 0 && idx != nil && L.isLoopIndex(idx) {
+			return []catom{{kind: "cur"}}
+		}
+		return []catom{{kind: "unknown", s: fmt.Sprintf("element %d of a match", k)}}
+	}
+	switch x := v.(type) {
+	case *ssa.Phi:
+		if x.Block() == L.H {
+			return []catom{{kind: "old", v: x}}
+		}
+	case *ssa.Const:
+		if s, ok := constString(x); ok {
+			if s == "" {
+				return nil
+			}
+			return []catom{{kind: "const", s: s}}
+		}
+	case *ssa.BinOp:
+		if x.Op == token.ADD {
+			return append(wc.seqString(lc, x.X, d+1), wc.seqString(lc, x.Y, d+1)...)
+		}
+	case *ssa.Call:
+		if B, m, _ := builderOp(x); B != nil && m == "String" && L.builders[B] {
+			return wc.builderSeq(lc, B, x)
+		}
+	}
+	return []catom{{kind: "unknown", s: valueDesc(v)}}
+}
+
+// builderSeq: what builder B holds on the path just before `upto` (at the end
+// of the path when upto is nil).
+func (wc *wrapContent) builderSeq(lc *lcPath, B *ssa.Alloc, upto ssa.Instruction) []catom {
+	cur := []catom{{kind: "old", v: B}}
+	for _, b := range lc.blocks {
+		for _, in := range b.Instrs {
+			if in == upto {
+				return cur
+			}
+			bb, m, call := builderOp(in)
+			if bb != B {
+				continue
+			}
+			switch m {
+			case "Reset":
+				cur = nil
+			case "WriteString":
+				cur = append(append([]catom{}, cur...), wc.seqString(lc, call.Call.Args[1], 0)...)
+			case "WriteByte", "WriteRune":
+				if k, ok := constInt(call.Call.Args[1]); ok {
+					cur = append(append([]catom{}, cur...), catom{kind: "const", s: string(rune(k))})
+				} else {
+					cur = append(append([]catom{}, cur...), catom{kind: "unknown", s: "a computed character"})
+				}
+			case "String", "Len", "Grow", "Cap":
+			default:
+				cur = append(append([]catom{}, cur...), catom{kind: "unknown", s: "builder operation " + m})
+			}
+		}
+	}
+	return cur
+}
+
+func (wc *wrapContent) seqSlice(lc *lcPath, v ssa.Value, d int) []catom {
+	if d > 32 {
+		return []catom{{kind: "unknown", s: "too deep"}}
+	}
+	v = lc.at(v)
+	switch x := v.(type) {
+	case *ssa.Phi:
+		if x == wc.slice {
+			return []catom{{kind: "old", v: x}}
+		}
+	case *ssa.Const:
+		if x.Value == nil {
+			return nil
+		}
+	case *ssa.Slice:
+		if al, ok := x.X.(*ssa.Alloc); ok && arrayLen(al) == 0 {
+			return nil
+		}
+	case *ssa.Call:
+		if b, ok := x.Call.Value.(*ssa.Builtin); ok && b.Name() == "append" && len(x.Call.Args) == 2 {
+			out := wc.seqSlice(lc, x.Call.Args[0], d+1)
+			elems, ok := variadicElements(x.Call.Args[1])
+			if !ok {
+				return append(out, catom{kind: "unknown", s: "append of a slice"})
+			}
+			for _, e := range elems {
+				out = append(out, wc.seqString(lc, e, 0)...)
+			}
+			return out
+		}
+	}
+	return []catom{{kind: "unknown", s: valueDesc(v)}}
+}
+
+// spaceFact: what the path knows about the current character being a blank
+// (the result of unicode.IsSpace on the first rune of match[2] of the current match).
+func (wc *wrapContent) spaceFact(pf pathFacts) (isSpace, known bool) {
+	L := wc.L
+	for _, f := range pf.facts {
+		call, ok := f.Cond.(*ssa.Call)
+		if !ok || !isLibCall(&call.Call, "unicode", "", "IsSpace") {
+			continue
+		}
+		// the argument: ([]rune(letter))[0] or a decoded first rune of letter
+		var fromLetter func(v ssa.Value, d int) bool
+		fromLetter = func(v ssa.Value, d int) bool {
+			if d > 6 || v == nil {
+				return false
+			}
+			if k, idx, isP := pieceIndex(L, v); isP {
+				return k == 2 && idx != nil && L.isLoopIndex(idx)
+			}
+			switch x := v.(type) {
+			case *ssa.UnOp:
+				return fromLetter(x.X, d+1)
+			case *ssa.IndexAddr:
+				if k, ok := constInt(x.Index); ok && k == 0 {
+					return fromLetter(x.X, d+1)
+				}
+			case *ssa.Index:
+				if k, ok := constInt(x.Index); ok && k == 0 {
+					return fromLetter(x.X, d+1)
+				}
+			case *ssa.Convert:
+				return fromLetter(x.X, d+1)
+			case *ssa.Extract:
+				if c2, ok := x.Tuple.(*ssa.Call); ok && x.Index == 0 && isLibCall(&c2.Call, "unicode/utf8", "", "DecodeRuneInString") {
+					return fromLetter(c2.Call.Args[0], d+1)
+				}
+			}
+			return false
+		}
+		if fromLetter(call.Call.Args[0], 0) {
+			return f.Truth, true
+		}
+	}
+	// letter == "\n" also says: a blank
+	for _, f := range pf.facts {
+		cmp, isCmp := f.Cmp()
+		if !isCmp || cmp.Op != token.EQL {
+			continue
+		}
+		for _, side := range [][2]ssa.Value{{cmp.X, cmp.Y}, {cmp.Y, cmp.X}} {
+			if s, isS := constString(side[1]); isS && s == "\n" {
+				if k, idx, isP := pieceIndex(L, side[0]); isP && k == 2 && idx != nil && L.isLoopIndex(idx) {
+					return true, true
+				}
+			}
+		}
+	}
+	return false, false
+}
+
+func blankString(s string) bool {
+	return strings.TrimSpace(s) == ""
+}
+
+func c13WrapContent(c *Ctx) {
+	P := c.P
+	fn := P.FuncOpt("servitor/ansi", "Wrap")
+	if fn == nil {
+		c.bad("servitor/ansi.Wrap", "ansi", "servitor/ansi", "ansi.Wrap not found")
+		return
+	}
+	fname := FuncName(fn)
+	pos := P.Pos(fn.Pos())
+	L, why := findWrapLoop(P, fn)
+	if !c.check(L != nil, fname+"/content-loop", pos, fname, "one loop over the matches of expand(text) with string buffers", "the shape of Wrap is not one the content analysis follows ("+why+"): that every character is kept cannot be established") {
+		return
+	}
+	wc := &wrapContent{L: L}
+	for _, in := range L.H.Instrs {
+		ph, ok := in.(*ssa.Phi)
+		if !ok {
+			break
+		}
+		if _, isSl := ph.Type().Underlying().(*types.Slice); isSl {
+			if wc.slice != nil {
+				c.bad(fname+"/content-buffers", pos, fname, "more than one slice is carried round the loop")
+				return
+			}
+			wc.slice = ph
+		}
+	}
+	loopPaths, complete := enumeratePathsFrom(fn, L.H, L.H, 4096)
+	if wc.slice == nil || !complete || len(loopPaths) == 0 {
+		c.bad(fname+"/content-buffers", pos, fname, "the buffers of Wrap (a slice of completed lines and strings carried round the loop) are not found")
+		return
+	}
+	alive, _ := L.infer(loopPaths)
+	// exit paths and the logical order of the buffers
+	type exitPath struct {
+		pf  pathFacts
+		seq []catom
+		wp  *wpath
+	}
+	var exits []exitPath
+	for _, b := range fn.Blocks {
+		if len(b.Instrs) == 0 {
+			continue
+		}
+		ret, isRet := b.Instrs[len(b.Instrs)-1].(*ssa.Return)
+		if !isRet || len(ret.Results) != 1 {
+			continue
+		}
+		ps, _ := enumeratePathsFrom(fn, L.H, b, 1024)
+		for _, pf := range ps {
+			wp := L.prepare(pf, false)
+			call, ok := ret.Results[0].(*ssa.Call)
+			var seq []catom
+			if ok && isLibCall(&call.Call, "strings", "", "Join") {
+				seq = wc.seqSlice(wp.w.lc, call.Call.Args[0], 0)
+			} else {
+				seq = []catom{{kind: "unknown", s: "the result is not a Join of the completed lines"}}
+			}
+			exits = append(exits, exitPath{pf, seq, wp})
+		}
+	}
+	var order []ssa.Value
+	for _, e := range exits {
+		var o []ssa.Value
+		clean := true
+		for _, a := range e.seq {
+			if a.kind != "old" {
+				clean = false
+			} else {
+				o = append(o, a.v)
+			}
+		}
+		if clean && len(o) > len(order) {
+			order = o
+		}
+	}
+	want := 1 + len(L.strs)
+	okOrder := len(order) == want && len(order) > 0 && order[0] == ssa.Value(wc.slice)
+	seenV := map[ssa.Value]bool{}
+	for _, v := range order {
+		if seenV[v] {
+			okOrder = false
+		}
+		seenV[v] = true
+	}
+	var names []string
+	for _, v := range order {
+		names = append(names, strName(v))
+	}
+	if !c.check(okOrder, fname+"/flush-order", pos, fname, "at the end the buffers are flushed in the order "+strings.Join(names, ", "), fmt.Sprintf("no exit path of Wrap flushes all %d buffers, each once, after the completed lines: the order in which the buffered text belongs cannot be read off", want)) {
+		return
+	}
+	// buffers that only ever hold blanks
+	blankOnly := map[ssa.Value]bool{}
+	for _, s := range L.strs {
+		blankOnly[s] = true
+	}
+	for changed := true; changed; {
+		changed = false
+		for _, s := range L.strs {
+			if !blankOnly[s] {
+				continue
+			}
+			ph, isPhi := s.(*ssa.Phi)
+			for _, pf := range loopPaths {
+				blocks := pf.blocks[:len(pf.blocks)-1]
+				lc := newLcPath(P, fn, pathFacts{blocks: blocks, facts: pf.facts})
+				isSp, known := wc.spaceFact(pf)
+				var after []catom
+				if isPhi {
+					after = wc.seqString(lc, L.backEdgeValue(ph, blocks[len(blocks)-1]), 0)
+				} else {
+					after = wc.builderSeq(lc, s.(*ssa.Alloc), nil)
+				}
+				for _, a := range after {
+					ok := false
+					switch a.kind {
+					case "old":
+						ok = blankOnly[a.v]
+					case "cur":
+						ok = known && isSp
+					case "const":
+						ok = blankString(a.s)
+					}
+					if !ok && blankOnly[s] {
+						blankOnly[s] = false
+						changed = true
+					}
+				}
+			}
+			// on entry: empty or blank (a builder is not written before the loop: checked by R1's initiation)
+			if isPhi {
+				if s2, ok := constString(L.backEdgeValue(ph, L.entry)); !ok || !blankString(s2) {
+					if blankOnly[s] {
+						blankOnly[s] = false
+						changed = true
+					}
+				}
+			}
+		}
+	}
+	var blanks []string
+	for _, s := range L.strs {
+		if blankOnly[s] {
+			blanks = append(blanks, strName(s))
+		}
+	}
+	c.info("Wrap_buffers_in_flush_order", strings.Join(names, ", "))
+	c.info("Wrap_buffers_holding_blanks_only", strings.Join(blanks, ", "))
+
+	// compare two atom sequences up to droppable atoms, under every case of the path
+	render := func(as []catom) string {
+		var out []string
+		for _, a := range as {
+			out = append(out, a.String())
+		}
+		return "[" + strings.Join(out, " ") + "]"
+	}
+	checkPath := func(key string, wp *wpath, pf pathFacts, got []catom, withCur bool, where string) {
+		lc := wp.w.lc
+		isSp, known := wc.spaceFact(pf)
+		okAll, whyNot := true, ""
+		nCases := 0
+		L.cases(wp, alive, func(hyps []linForm) {
+			nCases++
+			if !okAll {
+				return
+			}
+			empty := func(v ssa.Value) bool {
+				if v == ssa.Value(wc.slice) {
+					return false
+				}
+				sym := wp.w.headSym(v).suf
+				return lpImplies(hyps, newLin().add(sym, -1), lc.unsigned)
+			}
+			drop := func(a catom) bool {
+				switch a.kind {
+				case "old":
+					return blankOnly[a.v] || empty(a.v)
+				case "cur":
+					return known && isSp
+				case "const":
+					return blankString(a.s)
+				}
+				return false
+			}
+			var g, e []catom
+			for _, a := range got {
+				if a.kind == "unknown" {
+					okAll, whyNot = false, "a buffer is built from something that is not followed ("+a.s+")"
+					return
+				}
+				if !drop(a) {
+					g = append(g, a)
+				}
+			}
+			for _, v := range order {
+				a := catom{kind: "old", v: v}
+				if !drop(a) {
+					e = append(e, a)
+				}
+			}
+			if withCur && !(known && isSp) {
+				e = append(e, catom{kind: "cur"})
+			}
+			same := len(g) == len(e)
+			for i := 0; same && i < len(g); i++ {
+				same = g[i].kind == e[i].kind && g[i].v == e[i].v
+			}
+			if !same {
+				okAll = false
+				whyNot = fmt.Sprintf("read in flush order the buffers hold %s afterwards where %s is what they held before%s (blank-only and provably empty buffers left out)", render(g), render(e), map[bool]string{true: " plus the current character", false: ""}[withCur && !(known && isSp)])
+			}
+		})
+		okText := "no character is lost, duplicated or moved (" + where + ")"
+		if nCases == 0 {
+			okText = "the path cannot be taken in a state that satisfies the invariant (" + where + ")"
+		}
+		c.check(okAll, key, pos, fname, okText, "Wrap: "+whyNot+" ("+where+")")
+	}
+	for pi, pf := range loopPaths {
+		wp := L.prepare(pf, true)
+		lc := wp.w.lc
+		last := lc.blocks[len(lc.blocks)-1]
+		var got []catom
+		for _, v := range order {
+			switch x := v.(type) {
+			case *ssa.Alloc:
+				got = append(got, wc.builderSeq(lc, x, nil)...)
+			case *ssa.Phi:
+				if x == wc.slice {
+					got = append(got, wc.seqSlice(lc, L.backEdgeValue(wc.slice, last), 0)...)
+				} else {
+					got = append(got, wc.seqString(lc, L.backEdgeValue(x, last), 0)...)
+				}
+			}
+		}
+		checkPath(fmt.Sprintf("%s/wrap-content#%d", fname, pi), wp, pf, got, true, "path through lines "+pathLines(P, pf))
+	}
+	for ei, e := range exits {
+		checkPath(fmt.Sprintf("%s/wrap-flush#%d", fname, ei), e.wp, e.pf, e.seq, false, "exit through lines "+pathLines(P, e.pf))
+	}
+	// a line break in the text completes a line
+	for pi, pf := range loopPaths {
+		isNL := false
+		for _, f := range pf.facts {
+			if cmp, ok := f.Cmp(); ok && cmp.Op == token.EQL {
+				for _, side := range [][2]ssa.Value{{cmp.X, cmp.Y}, {cmp.Y, cmp.X}} {
+					if s, isS := constString(side[1]); isS && s == "\n" {
+						if k, idx, isP := pieceIndex(L, side[0]); isP && k == 2 && idx != nil && L.isLoopIndex(idx) {
+							isNL = true
+						}
+					}
+				}
+			}
+		}
+		if !isNL {
+			continue
+		}
+		wp := L.prepare(pf, true)
+		lc := wp.w.lc
+		seq := wc.seqSlice(lc, L.backEdgeValue(wc.slice, lc.blocks[len(lc.blocks)-1]), 0)
+		grown := false
+		if call, ok := lc.at(L.backEdgeValue(wc.slice, lc.blocks[len(lc.blocks)-1])).(*ssa.Call); ok {
+			if b, ok := call.Call.Value.(*ssa.Builtin); ok && b.Name() == "append" {
+				grown = true
+			}
+		}
+		_ = seq
+		c.check(grown, fmt.Sprintf("%s/line-break-kept#%d", fname, pi), pos, fname, "a line feed in the text completes a line (path through lines "+pathLines(P, pf)+")", "Wrap: on the path where the character is a line feed no line is completed: the line break is lost (path through lines "+pathLines(P, pf)+")")
+	}
+	// a word is only cut where its counter has reached the width
+	lineLike := order[1]
+	for pi, pf := range loopPaths {
+		wp := L.prepare(pf, true)
+		lc := wp.w.lc
+		last := lc.blocks[len(lc.blocks)-1]
+		// elements appended on this path
+		var elems []ssa.Value
+		v := lc.at(L.backEdgeValue(wc.slice, last))
+		for d := 0; d < 8; d++ {
+			call, ok := v.(*ssa.Call)
+			if !ok {
+				break
+			}
+			b, ok := call.Call.Value.(*ssa.Builtin)
+			if !ok || b.Name() != "append" {
+				break
+			}
+			if es, ok := variadicElements(call.Call.Args[1]); ok {
+				elems = append(elems, es...)
+			}
+			v = lc.at(call.Call.Args[0])
+		}
+		for _, el := range elems {
+			elSeq := wc.seqString(lc, el, 0)
+			hasLine := false
+			for _, a := range elSeq {
+				if a.kind == "old" && a.v == lineLike {
+					hasLine = true
+				}
+			}
+			if hasLine {
+				continue // the current line is pushed, with whatever was joined to it
+			}
+			for _, a := range elSeq {
+				if a.kind != "old" || blankOnly[a.v] {
+					continue
+				}
+				// a buffer other than the current line is pushed as a line of its own
+				okCut := false
+				for _, cd := range alive {
+					if okCut || cd.str != a.v || cd.strLo || cd.guard != nil || len(cd.sum) != 1 {
+						continue
+					}
+					counter := cd.sum[0]
+					okThis := true
+					L.cases(wp, alive, func(hyps []linForm) {
+						if !lpImplies(hyps, lc.num(counter).add(L.widthForm(), -1), lc.unsigned) {
+							okThis = false
+						}
+					})
+					okCut = okThis
+				}
+				c.check(okCut, fmt.Sprintf("%s/word-cut#%d", fname, pi), pos, fname, "the "+strName(a.v)+" buffer is pushed as a line of its own only where its counter has reached the width (path through lines "+pathLines(P, pf)+")", "Wrap: the "+strName(a.v)+" buffer is pushed as a line of its own on a path that does not know its counter to have reached the width: a word is cut although it would fit on a line (path through lines "+pathLines(P, pf)+")")
+			}
+		}
+	}
+}
+
+// ---------------------------------------------------------------- R7
+//
+// ansi.Snip. (a) At most `height` lines: the loop walks an index i down from
+// h-1 in steps of one, where h is min(len(lines), height); with len(kept)+i+1
+// <= h as invariant (true on entry, preserved on every path round the loop
+// because the index drops by one and the slice grows by at most one), at most h
+// <= height lines are kept when the loop is left. (b) A prefix of the input:
+// the lines are those of strings.Split(text, "\n"); what is kept in a trip is
+// collapse of expand(lines[i]) — possibly without its last match — put in
+// FRONT of what was kept before (the index runs downwards, so the result is in
+// ascending order); a trip that keeps nothing happens only while nothing has
+// been kept yet (trailing blank lines), so the kept lines are lines[0..k]
+// without gaps. (c) The result is those lines joined with line feeds plus,
+// possibly, the ellipsis parameter at the end.
+func c13Snip(c *Ctx) {
+	P := c.P
+	fn := P.FuncOpt("servitor/ansi", "Snip")
+	if fn == nil || len(fn.Params) != 4 {
+		c.bad("servitor/ansi.Snip", "ansi", "servitor/ansi", "ansi.Snip(text, width, height, ellipsis) not found")
+		return
+	}
+	fname := FuncName(fn)
+	pos := P.Pos(fn.Pos())
+	text, height, ellipsis := ssa.Value(fn.Params[0]), ssa.Value(fn.Params[2]), ssa.Value(fn.Params[3])
+	// the loop
+	var H *ssa.BasicBlock
+	nLoops := 0
+	for _, b := range fn.Blocks {
+		for _, p := range b.Preds {
+			if b.Dominates(p) {
+				H = b
+				nLoops++
+				break
+			}
+		}
+	}
+	if !c.check(nLoops == 1, fname+"/snip-loop", pos, fname, "one loop", fmt.Sprintf("%d loops in Snip where one walk over the lines is expected: that at most `height` lines forming a prefix of the text are returned cannot be established", nLoops)) {
+		return
+	}
+	var entry *ssa.BasicBlock
+	for _, p := range H.Preds {
+		if !H.Dominates(p) {
+			entry = p
+		}
+	}
+	var idx, kept *ssa.Phi
+	for _, in := range H.Instrs {
+		ph, ok := in.(*ssa.Phi)
+		if !ok {
+			break
+		}
+		if isInteger(ph.Type()) {
+			idx = ph
+		}
+		if sl, ok := ph.Type().Underlying().(*types.Slice); ok && isStringType(sl.Elem()) {
+			kept = ph
+		}
+	}
+	if !c.check(idx != nil && kept != nil && entry != nil, fname+"/snip-state", pos, fname, "an index and a slice of kept lines are carried round the loop", "the state of Snip's loop (an index and the kept lines) is not found") {
+		return
+	}
+	edgeOf := func(ph *ssa.Phi, from *ssa.BasicBlock) ssa.Value {
+		for k, p := range H.Preds {
+			if p == from {
+				return ph.Edges[k]
+			}
+		}
+		return nil
+	}
+	// the lines: strings.Split(text, "\n")
+	var lines ssa.Value
+	eachInstr(fn, func(_ *ssa.BasicBlock, _ int, in ssa.Instruction) {
+		if call, ok := in.(*ssa.Call); ok && isLibCall(&call.Call, "strings", "", "Split") {
+			if s, ok := constString(call.Call.Args[1]); ok && s == "\n" && unwrapLoad(call.Call.Args[0]) == text {
+				lines = call
+			}
+		}
+	})
+	c.check(lines != nil, fname+"/snip-lines", pos, fname, "the lines are strings.Split(text, \"\\n\")", "Snip does not take the lines of its own text parameter")
+	if lines == nil {
+		return
+	}
+	// (a) on entry: i = h-1 with h <= height and h <= len(lines), nothing kept
+	symH := newLin()
+	symH.coef["snip:h"] = 1
+	entryPaths, _ := enumeratePaths(fn, H, 256)
+	okEntry := len(entryPaths) > 0
+	whyEntry := ""
+	for _, pf := range entryPaths {
+		if len(pf.blocks) < 2 || pf.blocks[len(pf.blocks)-2] != entry {
+			continue
+		}
+		lc := newLcPath(P, fn, pf)
+		lc.useFacts()
+		i0 := lc.num(edgeOf(idx, entry))
+		k0, okK := lenOfSlice(lc, edgeOf(kept, entry), 0)
+		h := i0.add(linConst(1), 1)
+		hgt := lc.num(height)
+		nLines, _ := lc.slice(lines)
+		switch {
+		case !okK || !lc.proveEq(k0):
+			okEntry, whyEntry = false, "something is kept before the loop starts"
+		case !lc.nonNeg(hgt.add(h, -1)):
+			okEntry, whyEntry = false, "the index does not start below `height` (at "+i0.String()+")"
+		case !lc.nonNeg(nLines.add(h, -1)):
+			okEntry, whyEntry = false, "the index can start beyond the last line"
+		}
+	}
+	c.check(okEntry, fname+"/snip-entry", pos, fname, "the walk starts at min(len(lines), height)-1 with nothing kept", "Snip: "+whyEntry)
+	// round the loop
+	loopPaths, complete := enumeratePathsFrom(fn, H, H, 1024)
+	if !c.check(complete && len(loopPaths) > 0, fname+"/snip-paths", pos, fname, fmt.Sprintf("%d paths round the loop", len(loopPaths)), "the paths round Snip's loop could not be enumerated") {
+		return
+	}
+	collapseFn := P.FuncOpt("servitor/ansi", "collapse")
+	for pi, pf := range loopPaths {
+		blocks := pf.blocks[:len(pf.blocks)-1]
+		last := blocks[len(blocks)-1]
+		lc := newLcPath(P, fn, pathFacts{blocks: blocks, facts: pf.facts})
+		lc.useFacts()
+		where := "path through lines " + pathLines(P, pf)
+		i1 := lc.num(edgeOf(idx, last))
+		iPre := lc.num(idx)
+		stepOK := lc.proveEq(i1.add(iPre, -1).add(linConst(1), 1)) // i' = i - 1
+		newKept := lc.at(edgeOf(kept, last))
+		grown, shapeOK, why := false, true, ""
+		if newKept != ssa.Value(kept) {
+			grown = true
+			// append([]string{e}, kept...)
+			call, ok := newKept.(*ssa.Call)
+			b, isB := (*ssa.Builtin)(nil), false
+			if ok {
+				b, isB = call.Call.Value.(*ssa.Builtin)
+			}
+			if !ok || !isB || b.Name() != "append" || lc.at(call.Call.Args[1]) != ssa.Value(kept) {
+				shapeOK, why = false, "what was kept before is not put BEHIND the new line (the index runs downwards, so new lines belong in front)"
+			} else if elems, okE := variadicElements(call.Call.Args[0]); !okE || len(elems) != 1 {
+				shapeOK, why = false, "not exactly one line is added"
+			} else {
+				// collapse(expand(lines[i])) or collapse(expand(lines[i])[:len-1])
+				cc, okC := lc.at(elems[0]).(*ssa.Call)
+				if !okC || cc.Call.StaticCallee() != collapseFn || collapseFn == nil {
+					shapeOK, why = false, "the line added is not collapse(…) of matches"
+				} else {
+					m := lc.at(cc.Call.Args[0])
+					if sl, isSl := m.(*ssa.Slice); isSl {
+						// only the tail may be cut: [:len(x)-k]
+						if sl.Low != nil {
+							shapeOK, why = false, "the front of a line is cut off"
+						}
+						m = lc.at(sl.X)
+					}
+					ec, okX := m.(*ssa.Call)
+					if shapeOK && (!okX || ec.Call.StaticCallee() == nil || ec.Call.StaticCallee().Name() != "expand") {
+						shapeOK, why = false, "the line added does not come from expand"
+					} else if shapeOK {
+						ld, okL := ec.Call.Args[0].(*ssa.UnOp)
+						var ia *ssa.IndexAddr
+						if okL {
+							ia, _ = ld.X.(*ssa.IndexAddr)
+						}
+						if ia == nil || unwrapLoad(ia.X) != lines || !lc.proveEq(lc.num(ia.Index).add(iPre, -1)) {
+							shapeOK, why = false, "the line added is not lines[i] of the text"
+						}
+					}
+				}
+			}
+		} else {
+			// nothing kept in this trip: only while nothing has been kept at all
+			n, _ := lc.slice(kept)
+			if !lc.proveEq(n) {
+				shapeOK, why = false, "a line is skipped although later lines have been kept: the result has a gap"
+			}
+		}
+		_ = grown
+		c.check(stepOK && shapeOK, fmt.Sprintf("%s/snip-trip#%d", fname, pi), pos, fname, "the index drops by one; lines[i] (or nothing, while nothing is kept yet) goes in front of the kept lines ("+where+")", "Snip: "+map[bool]string{true: why, false: "the index does not drop by exactly one"}[stepOK]+" ("+where+")")
+	}
+	// (c) the result: Join(kept, "\n") [+ ellipsis]
+	eachInstr(fn, func(_ *ssa.BasicBlock, _ int, in ssa.Instruction) {
+		ret, ok := in.(*ssa.Return)
+		if !ok || len(ret.Results) != 1 {
+			return
+		}
+		okRes := true
+		var walk func(v ssa.Value, d int)
+		walk = func(v ssa.Value, d int) {
+			if d > 6 {
+				okRes = false
+				return
+			}
+			switch x := v.(type) {
+			case *ssa.Phi:
+				for _, e := range x.Edges {
+					walk(e, d+1)
+				}
+			case *ssa.BinOp:
+				if x.Op == token.ADD && unwrapLoad(x.Y) == ellipsis {
+					walk(x.X, d+1)
+					return
+				}
+				okRes = false
+			case *ssa.Call:
+				if isLibCall(&x.Call, "strings", "", "Join") {
+					if s, ok := constString(x.Call.Args[1]); ok && s == "\n" && x.Call.Args[0] == ssa.Value(kept) {
+						return
+					}
+				}
+				okRes = false
+			default:
+				okRes = false
+			}
+		}
+		walk(ret.Results[0], 0)
+		c.check(okRes, fname+"/snip-result", P.InstrPos(ret), fname, "the kept lines joined with line feeds, plus possibly the ellipsis", "Snip returns something else than the kept lines joined with line feeds and, at most, the ellipsis behind them")
+	})
+	// ellipses handed in are constants without a line feed
+	for _, e := range P.Callers(fn) {
+		if e.Site == nil {
+			continue
+		}
+		arg := e.Site.Common().Args[3]
+		// a constant, possibly coloured by the style layer (which adds no line feed: C14)
+		for d := 0; d < 3; d++ {
+			call, isCall := arg.(*ssa.Call)
+			if !isCall {
+				break
+			}
+			sc := call.Call.StaticCallee()
+			if sc == nil || sc.Pkg == nil || sc.Pkg.Pkg.Path() != "servitor/style" || len(call.Call.Args) != 1 {
+				break
+			}
+			arg = call.Call.Args[0]
+		}
+		s, ok := constString(arg)
+		c.check(ok && !strings.Contains(s, "\n"), FuncName(e.Caller.Func)+"/snip-ellipsis", P.InstrPos(e.Site), FuncName(e.Caller.Func), "the ellipsis is a constant without a line feed", "the ellipsis handed to Snip may contain a line feed: the result would have more lines than asked for")
+	}
 }
